@@ -106,6 +106,8 @@ class Replayer:
             return real[::-1] if g == 0 else real.dagger()
         if op == "slice":
             return real[(None if i == NONE else i):(None if j == NONE else j)]
+        if op == "rslice":
+            return real[(None if i == NONE else i):(None if j == NONE else j):-1]
         if op == "index":
             return real[i]
         if op == "interchange":
@@ -162,6 +164,7 @@ class Replayer:
             out += [call("thenSelf"), call("dagger"), call("dagger", g=1)]
             rng_ = [NONE] + list(range(-(n + 1), n + 2))
             out += [call("slice", i=i, j=j) for i in rng_ for j in rng_]
+            out += [call("rslice", i=i, j=j) for i in rng_ for j in rng_]
             out += [call("index", i=i) for i in range(-(n + 1), n + 1)]
             return out
         for g in gens:
@@ -180,6 +183,7 @@ class Replayer:
         for i in rng_:
             for j in rng_:
                 out.append(call("slice", i=i, j=j))
+                out.append(call("rslice", i=i, j=j))
         for i in range(-(n + 1), n + 1):
             out.append(call("index", i=i))
         for i in range(-1, n + 1):
